@@ -104,6 +104,20 @@ def oracle_case(lines_in, out):
                     return "constructor: limit %d is not a power of two in [1,2^63]" % v
             if tmin > tmax or cur != 0:
                 return "constructor: min > max or current time not 0"
+            # the integer limits are the configured ones rounded down to a power-of-two fraction of the interval (independent of how the code finds them)
+            def floor_pow2(v):
+                t = TOP
+                while t > 1 and a * float(t) > v:
+                    t >>= 1
+                return t
+            if mnv > 0 and tmin != floor_pow2(mnv):
+                return ("configured minimum: the time line uses the minimum step %d (%r s) but the configured minimum %r s rounds down to %d (%r s): requests below the configured minimum "
+                        "do not stop the run / requests above it do" % (tmin, a * float(tmin), mnv, floor_pow2(mnv), a * float(floor_pow2(mnv))))
+            if mnv <= 0 and tmin != 1:
+                return "configured minimum: no minimum configured but the time line uses %d" % tmin
+            want_max = max(tmin, floor_pow2(mxv)) if mxv > 0 else TOP
+            if tmax != want_max:
+                return "configured maximum: the time line uses the maximum step %d (%r s), the configured maximum %r s rounds down to %d" % (tmax, a * float(tmax), mxv, want_max)
         elif f[0] == "A" and len(f) >= 6 and cur is not None:
             req = vf.bits_dbl(int(g[1], 16))
             ret, ts, new = int(f[1]), int(f[4]), int(f[5])
